@@ -158,7 +158,7 @@ package pogreb
 //@ spec func crcOK(m mem, o int) bool = le32(m, o+recSize(m, o)-4) == crc(m, o, recSize(m, o)-4)
 
 // the iterator reads the file of its segment through a reader positioned at it.offset
-//@ spec func segItInv(it *segmentIterator) bool = it != nil && it.f != nil && it.f.file != nil && it.f.file.File != nil && it.r != nil && len(it.buf) == 6 && arr(it.buf) != 0 && fidOf[it.r] == fidOf[it.f.file.File] && hPos[it.r] == int64(it.offset) && fLen[fidOf[it.r]] <= 0xffffffff && fLen[fidOf[it.r]] >= 0 && it.f.file.size == fLen[fidOf[it.r]]
+//@ spec func segItInv(it *segmentIterator) bool = it != nil && it.f != nil && it.f.file != nil && it.f.file.File != nil && it.r != nil && len(it.buf) == 6 && arr(it.buf) != 0 && fidOf[it.r] == fidOf[it.f.file.File] && hPos[it.r] == int64(it.offset) && fLen[fidOf[it.r]] <= 0xffffffff && fLen[fidOf[it.r]] >= 0 && it.f.file.size == fLen[fidOf[it.r]] && int64(it.offset) <= fLen[fidOf[it.r]]
 
 //@ func (it *segmentIterator) next() (rec record, err error) [C08,C18,C19,C16]
 //@   requires inv: segItInv(it)
@@ -174,6 +174,7 @@ package pogreb
 //@   ensures recvalue: err == nil ==> arr(rec.value) == arr(rec.data) && off(rec.value) == off(rec.data)+6+len(rec.key) && len(rec.value) == recV(fData[fidOf[it.r]], int(old(it.offset)))
 //@   ensures onlyvalid: err == nil ==> crcOK(fData[fidOf[it.r]], int(old(it.offset))) && int64(old(it.offset)) + int64(recSize(fData[fidOf[it.r]], int(old(it.offset)))) <= fLen[fidOf[it.r]]
 //@   ensures errs: err != nil ==> isIOErr(err) || err == ErrIterationDone || err == io.EOF || err == io.ErrUnexpectedEOF || err == errCorrupted
+//@   ensures stays: err != nil ==> it.offset == old(it.offset)
 //@   at call ChecksumIEEE@1: assert bytes-read: sameBytes(contents(data), off(data), fData[fidOf[it.r]], int(old(it.offset)), len(data)) && len(data) == recSize(fData[fidOf[it.r]], int(old(it.offset)))
 //@   at call ChecksumIEEE@1: assert crc-field: le32(contents(data), off(data)+len(data)-4) == le32(fData[fidOf[it.r]], int(old(it.offset))+recSize(fData[fidOf[it.r]], int(old(it.offset)))-4)
 //@   at call ChecksumIEEE@1: assert crc-range: crc(contents(data), off(data), len(data)-4) == crc(fData[fidOf[it.r]], int(old(it.offset)), recSize(fData[fidOf[it.r]], int(old(it.offset)))-4)
